@@ -148,6 +148,11 @@ def run_check(prop: Prop, tier, seed, replay=None):
         obligations.append((f"lake build {prop.module}", False, llog[-1500:]))
     if len(theorems) < prop.min_theorems:
         obligations.append(("theorem inventory", False, f"{len(theorems)} < {prop.min_theorems} property theorems found"))
+    if tier == "thorough" and prop.module and lok:
+        # independent re-check of the compiled property module by the toolchain's checker
+        with C.Lock("lake"):
+            rc_, out_, err_ = C.run(["lake", "env", "leanchecker", prop.module], cwd=C.LEAN, timeout=3600)
+        obligations.append((f"leanchecker {prop.module}", rc_ == 0, (out_ + err_)[-400:]))
     bad = C.forbidden_hits(prop.module) if prop.module else []
     obligations.append(("no sorry/admit/axiom/native_decide in import closure", not bad, "; ".join(bad[:5])))
     obligations.extend(prop.extra_obligations(ctx))
